@@ -56,6 +56,20 @@ func (w *Adv) Rejected(kind string, tag string) (head *entry.Entry, forbidden []
 			head, err = Forge(w.B.Peer.API(), ForgeSpec{LogID: w.Addr, Payload: addPayload(name), Time: 2, Signer: w.B.DB.Identity(), Next: []cid.Cid{n1.Hash}})
 		}
 		forbidden, sender = []*entry.Entry{n1}, w.B
+	case "stolenhash": // a non-writer's entry announced under the address of the valid head (the claimed hash is the announcer's choice)
+		var e *entry.Entry
+		e, err = Forge(w.N.Peer.API(), ForgeSpec{LogID: w.Addr, Payload: addPayload(name), Time: 1, Signer: w.N.DB.Identity()})
+		if err == nil {
+			genuine := *e
+			forbidden = []*entry.Entry{&genuine}
+			c := *e
+			if hs := w.SA.OpLog().Heads().Slice(); len(hs) > 0 {
+				c.Hash = hs[0].GetHash()
+			}
+			head = &c
+			w.Names[genuine.Hash.String()] = name + ".content"
+		}
+		sender = w.N
 	case "aliaslink", "junklink": // an authorised colluder's valid entry whose link cannot be followed to a genuine entry
 		// aliaslink: the link names a genuine entry of A under another codec (same digest): what is fetched does
 		// not hash to the requested address. junklink: the link names a block that is not an entry (the manifest).
@@ -78,7 +92,7 @@ func (w *Adv) Rejected(kind string, tag string) (head *entry.Entry, forbidden []
 	default:
 		err = fmt.Errorf("unknown rejected kind %q", kind)
 	}
-	if err == nil && head != nil {
+	if err == nil && head != nil && kind != "stolenhash" {
 		w.Names[head.Hash.String()] = name
 	}
 	return
@@ -328,11 +342,11 @@ func (w *C10World) Close() {
 }
 
 func init() {
-	kinds := []string{"nonwriter", "forged", "foreign", "wronghash", "badancestor", "aliaslink", "junklink"}
+	kinds := []string{"nonwriter", "forged", "foreign", "wronghash", "badancestor", "aliaslink", "junklink", "stolenhash"}
 	routes := []string{"sync", "topic", "direct"}
 	explore.Register(&explore.CheckDef{
 		ID: "C10", Level: "model_checking",
-		Rule: "for every rejected-head kind {non-writer author, writer's identity block with foreign key, entry of another database, wrong claimed hash, unauthorised ancestor behind an authorised colluder's head, colluder's head whose link is a same-digest alias of a genuine entry or names a block that is no entry} (each also against a victim with a single fetch slot, route sync) x valid heads {one head with ancestor, two heads} x layout {rejected first/middle/last in one announcement, two announcements in either order} x route {sync, topic, direct channel}: all completion orders of the victim's block fetches (every fetch gated; all schedules, deviation bound in evidence), then an honest re-announcement of the valid heads and all its fetch orders; at quiescence every valid entry must be in the victim's log and view and no forbidden entry may be. Non-trivial = executions with at least one deviation from the canonical fetch order.",
+		Rule: "for every rejected-head kind {non-writer author, writer's identity block with foreign key, entry of another database, wrong claimed hash, non-writer's entry claiming the valid head's hash, unauthorised ancestor behind an authorised colluder's head, colluder's head whose link is a same-digest alias of a genuine entry or names a block that is no entry} (each also against a victim with a single fetch slot, route sync) x valid heads {one head with ancestor, two heads} x layout {rejected first/middle/last in one announcement, two announcements in either order} x route {sync, topic, direct channel}: all completion orders of the victim's block fetches (every fetch gated; all schedules, deviation bound in evidence), then an honest re-announcement of the valid heads and all its fetch orders; at quiescence every valid entry must be in the victim's log and view and no forbidden entry may be. Non-trivial = executions with at least one deviation from the canonical fetch order.",
 		Units: func(tier string) []explore.Unit {
 			var u []explore.Unit
 			bound := 2
